@@ -1,11 +1,347 @@
 package ackhandler
 
+// C05, target "ack" (package internal/ackhandler):
+//
+//	pn-codec     protocol.PacketNumberLengthForHeader + protocol.DecodePacketNumber against RFC 9000 A.2/A.3 (ref5)
+//	pngen        the real packet number generators over all short histories and skip choices
+//	sph-pn*      BFS over the real sentPacketHandler / uSentPacketHandler: packet numbers strictly
+//	             increasing per space (Retry, key drops, 0-RTT included), Peek == Pop, and the length
+//	             chosen by PeekPacketNumber decodes for every receiver state consistent with the ACKs
+
 import (
+	"encoding/json"
+	"fmt"
 	"testing"
 
+	"github.com/refraction-networking/uquic/internal/protocol"
 	"github.com/refraction-networking/uquic/internal/verifmc/explore"
+	"github.com/refraction-networking/uquic/internal/verifmc/ref5"
 )
 
 func TestVerifC05Ack(t *testing.T) {
-	explore.Main("C05", []explore.Part{}, func(msg string) { t.Fatal(msg) })
+	explore.Main("C05", []explore.Part{
+		c05CodecPart(),
+		c05PNGenPart(),
+		c05SphPart("sph-pn", c05SphCfg{pers: protocol.PerspectiveClient}),
+		c05SphPart("sph-pn-server", c05SphCfg{pers: protocol.PerspectiveServer}),
+		c05SphPart("sph-pn-edge", c05SphCfg{pers: protocol.PerspectiveClient, start: 1<<15 - 3}),
+		c05SphPart("sph-pn-uquic", c05SphCfg{pers: protocol.PerspectiveClient, uquic: true}),
+	}, func(msg string) { t.Fatal(msg) })
+}
+
+func c05CasesPart(name string, mk func(e explore.Env) (n int, rule, bound string, run func(i int) explore.CaseResult)) explore.Part {
+	return explore.Part{
+		Name: name,
+		Run: func(e explore.Env) *explore.Report {
+			n, rule, bound, run := mk(e)
+			rep := explore.RunCases(e, n, 0, true, run)
+			rep.Rule = rule
+			rep.Bound = bound
+			if !rep.Exhaustive {
+				rep.Bound += " (cut by the deadline)"
+			}
+			for _, i := range []int{0, n / 2, n - 1} {
+				if i >= 0 && i < n {
+					rep.Samples = append(rep.Samples, fmt.Sprintf("case %d: %s", i, run(i).Outcome))
+				}
+			}
+			return rep
+		},
+		Replay: func(e explore.Env, raw json.RawMessage) *explore.Violation {
+			_, _, _, run := mk(e)
+			cr := run(explore.ReplayIndex(raw))
+			if cr.Fail == nil {
+				return nil
+			}
+			return &explore.Violation{Key: cr.Fail.Key, What: cr.Fail.What, Replay: raw, Human: cr.Human}
+		},
+	}
+}
+
+// ---------------------------------------------------------------------------------------
+// part "pn-codec"
+
+const c05MaxPN = int64(1)<<62 - 1
+
+// c05Gaps lists the num_unacked values (pn - largestAcked, or pn + 1 when nothing is
+// acknowledged): 1..300 and windows around 2^15, 2^23 and below 2^31 (RFC 9000 cannot
+// encode more than 2^31 unacknowledged packets).
+func c05Gaps(thorough bool) []int64 {
+	w := int64(64)
+	small := int64(300)
+	if thorough {
+		w, small = 512, 1200
+	}
+	var g []int64
+	for d := int64(1); d <= small; d++ {
+		g = append(g, d)
+	}
+	for _, c := range []int64{1 << 15, 1 << 23} {
+		for d := c - w; d <= c+w; d++ {
+			g = append(g, d)
+		}
+	}
+	for d := int64(1)<<31 - w; d <= 1<<31; d++ {
+		g = append(g, d)
+	}
+	return g
+}
+
+// c05Ackeds lists largest-acknowledged values; -1 = nothing acknowledged; negative values
+// below -1 mean "such that pn = 2^62-1-k".
+func c05Ackeds() []int64 {
+	return []int64{-1, 0, 1, 2, 127, 128, 255, 256, 32767, 32768, 65535, 65536, 1<<24 - 1, 1 << 24, 1<<31 - 1, 1 << 31, 1<<32 - 1, 1 << 32, 1<<40 + 7, 1<<61 + 12345,
+		-2 /* pn = 2^62-1 */, -3 /* pn = 2^62-2 */, -4 /* pn = 2^62-3 */}
+}
+
+func c05Window(d int64) string {
+	switch {
+	case d <= 1200:
+		return "small"
+	case d < 1<<20:
+		return "2^15"
+	case d < 1<<28:
+		return "2^23"
+	}
+	return "2^31"
+}
+
+func c05CodecCase(gaps []int64, smallMax int64) func(i int) explore.CaseResult {
+	ackeds := c05Ackeds()
+	return func(i int) explore.CaseResult {
+		if i >= len(gaps)*len(ackeds) { // pure differential grid
+			return c05CodecGridCase(i-len(gaps)*len(ackeds), i)
+		}
+		d := gaps[i%len(gaps)]
+		la := ackeds[i/len(gaps)]
+		var pn int64
+		switch {
+		case la == -1:
+			pn = d - 1
+		case la < -1:
+			pn = c05MaxPN - (-la - 2)
+			la = pn - d
+		default:
+			pn = la + d
+		}
+		if pn > c05MaxPN || la < -1 {
+			return explore.CaseResult{Outcome: "out of range"}
+		}
+		realLA := protocol.InvalidPacketNumber
+		if la >= 0 {
+			realLA = protocol.PacketNumber(la)
+		}
+		l := protocol.PacketNumberLengthForHeader(protocol.PacketNumber(pn), realLA)
+		need := ref5.EncodedPacketNumberLength(uint64(pn), la)
+		explore.Must(need <= 4, "gap %d needs %d bytes: outside the domain", d, need)
+		if int(l) < need || l > 4 {
+			return explore.CaseResult{Outcome: "length too short", Replay: i,
+				Fail: explore.Failf(fmt.Sprintf("pn-length-too-short:window=%s", c05Window(d)), "PacketNumberLengthForHeader(pn=%d, largestAcked=%d) = %d bytes, RFC 9000 A.2 needs at least %d (num_unacked %d)", pn, la, l, need, d)}
+		}
+		// receiver states consistent with the sender's knowledge: the largest packet number the
+		// receiver has processed is at least the largest acknowledged one and at most pn-1; with
+		// nothing acknowledged the receiver may not have processed anything (the openers start at 0)
+		lo := max(la, 0)
+		var rs []int64
+		if d <= smallMax {
+			for r := lo; r < pn; r++ {
+				rs = append(rs, r)
+			}
+			if pn == 0 || la < 0 {
+				rs = append(rs, 0)
+			}
+		} else {
+			rs = []int64{lo, lo + 1, lo + 2, (lo + pn) / 2, pn - 3, pn - 2, pn - 1}
+		}
+		var n int64
+		for _, r := range rs {
+			for ll := 1; ll <= 4; ll++ {
+				trunc := pn & (int64(1)<<(8*uint(ll)) - 1)
+				got := protocol.DecodePacketNumber(protocol.PacketNumberLen(ll), protocol.PacketNumber(r), protocol.PacketNumber(trunc))
+				want := ref5.DecodePacketNumber(r, uint64(trunc), ll)
+				n++
+				if uint64(got) != want {
+					return explore.CaseResult{Outcome: "decode differs", Replay: i,
+						Fail: explore.Failf(fmt.Sprintf("pn-decode-differs:len=%d", ll), "DecodePacketNumber(len=%d, largest=%d, truncated=%#x) = %d, RFC 9000 A.3 gives %d", ll, r, trunc, got, want)}
+				}
+				if ll == int(l) && int64(got) != pn {
+					return explore.CaseResult{Outcome: "roundtrip fails", Replay: i,
+						Fail: explore.Failf(fmt.Sprintf("pn-roundtrip:len=%d:window=%s", ll, c05Window(d)), "pn=%d sent with largestAcked=%d is encoded in %d bytes (%#x); a receiver whose largest processed packet number is %d decodes %d", pn, la, l, trunc, r, got)}
+				}
+			}
+		}
+		return explore.CaseResult{Outcome: fmt.Sprintf("len=%d need=%d window=%s ok", l, need, c05Window(d)), Trans: n}
+	}
+}
+
+// c05CodecGridCase compares DecodePacketNumber with the reference on a boundary grid that
+// is not constrained to decodable situations.
+func c05CodecGridCase(i, replayIdx int) explore.CaseResult {
+	ll := i%4 + 1
+	win := int64(1) << (8 * uint(ll))
+	bases := []int64{0, win, 2 * win, 7 * win, 1 << 32, 1<<62 - 2*win, 1<<62 - win}
+	base := bases[i/4%len(bases)]
+	var n int64
+	for _, lo := range []int64{-3, -2, -1, 0, 1, 2, win/2 - 2, win/2 - 1, win / 2, win/2 + 1, win - 3, win - 2, win - 1} {
+		largest := base + lo
+		if largest < 0 || largest > c05MaxPN {
+			continue
+		}
+		for _, t := range []int64{0, 1, 2, win/2 - 2, win/2 - 1, win / 2, win/2 + 1, win/2 + 2, win - 2, win - 1} {
+			got := protocol.DecodePacketNumber(protocol.PacketNumberLen(ll), protocol.PacketNumber(largest), protocol.PacketNumber(t))
+			want := ref5.DecodePacketNumber(largest, uint64(t), ll)
+			n++
+			if uint64(got) != want {
+				return explore.CaseResult{Outcome: "decode differs", Replay: replayIdx,
+					Fail: explore.Failf(fmt.Sprintf("pn-decode-differs:len=%d", ll), "DecodePacketNumber(len=%d, largest=%d, truncated=%#x) = %d, RFC 9000 A.3 gives %d", ll, largest, t, got, want)}
+			}
+		}
+	}
+	return explore.CaseResult{Outcome: fmt.Sprintf("grid len=%d identical", ll), Trans: n}
+}
+
+func c05CodecPart() explore.Part {
+	return c05CasesPart("pn-codec", func(e explore.Env) (int, string, string, func(int) explore.CaseResult) {
+		gaps := c05Gaps(e.Thorough())
+		small := int64(300)
+		if e.Thorough() {
+			small = 1200
+		}
+		n := len(gaps)*len(c05Ackeds()) + 4*7
+		return n, fmt.Sprintf("%d num_unacked values (1..%d, windows around 2^15 and 2^23, the top of the encodable range 2^31) x %d largest-acknowledged values (none, 0 .. 2^61, and such that pn is 2^62-1, 2^62-2, 2^62-3): PacketNumberLengthForHeader >= RFC 9000 A.2 minimum, and DecodePacketNumber(chosen length, r, truncated pn) == pn for every receiver state r in [largestAcked, pn-1] (all r for gaps <= %d, 7 representatives otherwise); for all four lengths DecodePacketNumber == RFC 9000 A.3 reference, plus a boundary grid of (largest, truncated) pairs", len(gaps), small, len(c05Ackeds()), small),
+			fmt.Sprintf("all %d cases", n), c05CodecCase(gaps, small)
+	})
+}
+
+// ---------------------------------------------------------------------------------------
+// part "pngen"
+
+type c05GenRun struct {
+	fail    *explore.Fail
+	outcome string
+	trace   []int64
+}
+
+// c05GenOnce drives one real skippingPacketNumberGenerator; the random skip distance
+// (crypto/rand in production) is replaced by an enumerated choice over its whole range.
+func c05GenOnce(c *explore.Chooser, pops int) c05GenRun {
+	initials := []protocol.PacketNumber{0, 1, 1<<62 - 64}
+	initial := initials[c.ChooseCost(len(initials), 0)]
+	period := protocol.PacketNumber(1 + c.ChooseCost(2, 0))
+	maxPeriod := protocol.PacketNumber(2)
+	g := newSkippingPacketNumberGenerator(initial, period, maxPeriod).(*skippingPacketNumberGenerator)
+	var run c05GenRun
+	fix := func(prePeriod protocol.PacketNumber) {
+		if g.nextToSkip < g.next+3 || g.nextToSkip >= g.next+3+2*prePeriod {
+			run.fail = explore.Failf("pngen-skip-distance", "generateNewSkip chose nextToSkip=%d with next=%d period=%d (allowed [next+3, next+3+2*period))", g.nextToSkip, g.next, prePeriod)
+		}
+		g.nextToSkip = g.next + 3 + protocol.PacketNumber(c.ChooseCost(int(2*prePeriod), 0))
+	}
+	fix(period)
+	last := protocol.InvalidPacketNumber
+	lastSkipped := false
+	skips := 0
+	for i := 0; i < pops && run.fail == nil; i++ {
+		pre := g.period
+		peek := g.Peek()
+		if c.ChooseCost(2, 1) == 1 { // an extra Peek must not change anything (at most two per history)
+			if p2 := g.Peek(); p2 != peek {
+				run.fail = explore.Failf("pngen-peek-unstable", "two consecutive Peek() calls returned %d and %d", peek, p2)
+				break
+			}
+		}
+		skipped, pn := g.Pop()
+		run.trace = append(run.trace, int64(pn))
+		switch {
+		case pn != peek:
+			run.fail = explore.Failf("pngen-peek-pop-differ", "Peek() = %d but Pop() = %d", peek, pn)
+		case pn <= last:
+			run.fail = explore.Failf("pngen-reuse", "Pop() returned %d after %d: packet numbers must strictly increase", pn, last)
+		case last != protocol.InvalidPacketNumber && !skipped && pn != last+1:
+			run.fail = explore.Failf("pngen-unreported-gap", "Pop() returned %d after %d without reporting a skipped packet number", pn, last)
+		case skipped && (last != protocol.InvalidPacketNumber && pn != last+2 || last == protocol.InvalidPacketNumber && pn != initial+1):
+			run.fail = explore.Failf("pngen-skip-size", "Pop() reported a skip but returned %d after %d", pn, last)
+		case skipped && lastSkipped:
+			run.fail = explore.Failf("pngen-consecutive-skips", "two consecutive packet numbers were skipped before %d", pn)
+		}
+		if skipped {
+			skips++
+			fix(pre)
+		}
+		last, lastSkipped = pn, skipped
+	}
+	run.outcome = fmt.Sprintf("initial=%d period=%d skips=%d", initial, period, skips)
+	return run
+}
+
+func c05PNGenPart() explore.Part {
+	return explore.Part{
+		Name: "pngen",
+		Run: func(e explore.Env) *explore.Report {
+			pops := 11
+			if e.Thorough() {
+				pops = 16
+			}
+			rep := &explore.Report{Level: "model_checking", Exhaustive: true}
+			rep.Rule = fmt.Sprintf("every history of %d Pop() calls (at most two of them preceded by a second Peek()) on the real skippingPacketNumberGenerator for initial pn in {0, 1, 2^62-64}, initial period 1|2, max period 2, with the random skip distance replaced by an exhaustive choice over its whole range; plus the sequentialPacketNumberGenerator: Peek == Pop, strictly increasing, every gap reported as exactly one skipped number, never two skips in a row", pops)
+			outcomes := explore.NewOutcomeSet()
+			res := explore.EnumerateChoices(2, 0, e.Expired, func(c *explore.Chooser) {
+				run := c05GenOnce(c, pops)
+				rep.Transitions += int64(len(run.trace))
+				outcomes.Add(run.outcome)
+				if run.fail != nil && len(rep.Violations) < 5 {
+					dup := false
+					for _, v := range rep.Violations {
+						dup = dup || v.Key == run.fail.Key
+					}
+					if !dup {
+						rep.Violations = append(rep.Violations, explore.Violation{Key: run.fail.Key, What: run.fail.What, Replay: explore.JSON(c.Trace), Human: []string{fmt.Sprint(run.trace)}})
+					}
+				}
+				if len(rep.Samples) < 3 && len(run.trace) > 0 && run.trace[len(run.trace)-1] > run.trace[0]+int64(pops) {
+					rep.Samples = append(rep.Samples, fmt.Sprintf("%s: %v", run.outcome, run.trace))
+				}
+			})
+			// sequential generator
+			for _, init := range []protocol.PacketNumber{0, 7, 1<<62 - 40} {
+				g := newSequentialPacketNumberGenerator(init)
+				for i := 0; i < 32; i++ {
+					peek := g.Peek()
+					skipped, pn := g.Pop()
+					rep.Transitions++
+					if skipped || pn != peek || pn != init+protocol.PacketNumber(i) {
+						rep.Violations = append(rep.Violations, explore.Violation{Key: "pngen-sequential", What: fmt.Sprintf("sequential generator from %d: pop %d gave %d (peek %d, skipped %v)", init, i, pn, peek, skipped), Replay: explore.JSON([]int{})})
+						break
+					}
+				}
+				outcomes.Add(fmt.Sprintf("sequential initial=%d", init))
+			}
+			rep.Evaluations = res.Executions
+			rep.Traces = res.Executions
+			rep.Outcomes = outcomes.List()
+			rep.OutcomesN = int64(len(rep.Outcomes))
+			rep.States = rep.OutcomesN
+			rep.Exhaustive = !res.Capped
+			rep.Bound = fmt.Sprintf("all %d choice sequences", res.Executions)
+			if res.Capped {
+				rep.Caps = append(rep.Caps, "deadline")
+			}
+			return rep
+		},
+		Replay: func(e explore.Env, raw json.RawMessage) *explore.Violation {
+			var prefix []int
+			if err := json.Unmarshal(raw, &prefix); err != nil {
+				return nil
+			}
+			pops := 11
+			if e.Thorough() {
+				pops = 16
+			}
+			run := c05GenOnce(explore.NewChooser(prefix), pops)
+			if run.fail == nil {
+				return nil
+			}
+			return &explore.Violation{Key: run.fail.Key, What: run.fail.What, Replay: raw}
+		},
+	}
 }
